@@ -273,6 +273,35 @@ namespace
     }
 }
 
+namespace
+{
+    // used during the static initialisation of the harness, i.e. before main() (see c20_base64.cc)
+    struct BeforeMain
+    {
+        std::string text1, text2, what;
+        int q = -1;
+        bool fields_ok = false;
+        BeforeMain()
+        {
+            try
+            {
+                auto m    = MediaType::fromString("application/vnd.early+json; q=0.25; charset=utf-8");
+                text1     = m.toString();
+                q         = m.q() ? int(m.q()->value()) : -1;
+                fields_ok = m.top() == Type::Application && m.sub() == Subtype::Vendor && m.suffix() == Suffix::Json && m.getParam("charset") && *m.getParam("charset") == "utf-8";
+                MediaType built(Type::Text, Subtype::Html);
+                built.setQuality(Q(70));
+                text2 = built.toString();
+            }
+            catch (const std::exception& e)
+            {
+                what = e.what();
+            }
+        }
+    };
+    const BeforeMain g_before_main;
+}
+
 namespace verif
 {
     HarnessInfo harness_info() { return { "C18", 120 }; }
@@ -287,6 +316,18 @@ namespace verif
 
     Verdict run_case(const uint8_t* data, size_t size, Report& rep)
     {
+        {
+            static bool judged = false;
+            if (!judged)
+            {
+                judged              = true;
+                const BeforeMain& b = g_before_main;
+                rep.label("used-before-main");
+                V_CHECK(b.what.empty(), "C18/before-main/throws", "MediaType used from the initialiser of a namespace-scope object threw: " + b.what);
+                V_CHECK(b.fields_ok && b.q == 25 && b.text1 == "application/vnd.early+json; q=0.25; charset=utf-8" && b.text2 == "text/html; q=0.7", "C18/before-main/wrong",
+                        "media types handled before main(): \"" + printable(b.text1, 80) + "\" (q " + std::to_string(b.q) + ", fields " + (b.fields_ok ? "ok" : "wrong") + "), built: \"" + printable(b.text2, 40) + "\"");
+            }
+        }
         Choices c(data, size);
         unsigned mode = c.pick(8);
         if (mode <= 2)
